@@ -67,9 +67,6 @@ func vbrSpec(cs *Case) *spec {
 	place := func(b int) string {
 		in := table[b]
 		tag := ""
-		if b == 0 || b == 255 {
-			tag = fmt.Sprintf(":byte-%d", b)
-		}
 		if in {
 			for _, it := range items {
 				if it.single && it.s == b {
@@ -89,6 +86,9 @@ func vbrSpec(cs *Case) *spec {
 					return "range-end" + tag
 				}
 			}
+			if b == 0 || b == 255 {
+				tag = fmt.Sprintf(":byte-%d", b)
+			}
 			return "inside-range" + tag
 		}
 		for _, it := range items {
@@ -99,7 +99,20 @@ func vbrSpec(cs *Case) *spec {
 				return "one-before-start" + tag
 			}
 		}
+		if b == 0 || b == 255 {
+			tag = fmt.Sprintf(":byte-%d", b)
+		}
 		return "outside" + tag
+	}
+	sp.parts = func(in string) []string {
+		if len(in) < 2 {
+			return nil
+		}
+		ps := make([]string, len(in))
+		for i := range ps {
+			ps[i] = in[i : i+1]
+		}
+		return ps
 	}
 	sp.wantFn = func(in string, _ bool) *want {
 		v := false
